@@ -5,7 +5,8 @@
 (*    obs: {outs, ended, pulled (source events after glom() and after every next() call),  *)
 (*          budget (the instrumented infinite source was asked beyond the horizon),        *)
 (*          ev (interleaving of source pulls "p"/"x", "b" = glom() returned, consumer       *)
-(*              "e"/"f"), mech (whether ev is to be stepped through the pull machine)}}      *)
+(*              "e"/"f"), mech (whether ev is to be stepped through the pull machine)},      *)
+(*    term: one terminal call on the same pipeline: first(key, default) or all()}            *)
 (* Each row is first judged by the LAW (Part A of GlomStream: outputs = reference            *)
 (* composition, END where the reference ends, pulled <= DemandLA), then its event            *)
 (* interleaving is stepped through the pull machine (Part B), action by action.             *)
@@ -41,9 +42,26 @@ JudgeAgainst(P, r) ==
      ELSE IF o.budget /\ ncalls + 1 <= r.kmax /\ P.demLA[ncalls + 2] # INF THEN "laziness"
      ELSE ""
 
+\* the terminal call recorded with the row: term = [kind "first" | "all" | "none", idx (first: index into
+\* FirstVariants), v (first: the value; all: the list as a list value), pulled, budget]
+TermVerdict(pr, t) ==
+  IF t.kind = "first"
+  THEN LET f == pr.first[t.idx] IN
+       IF ~f.det \/ f.demLA = INF THEN ""
+       ELSE IF t.budget THEN "laziness"
+       ELSE IF t.v # f.v THEN (IF f.v.k = "sent" /\ t.v.k = "opaque" THEN "first:sentinel-item" ELSE "first")
+       ELSE IF t.pulled > f.demLA THEN "laziness" ELSE ""
+  ELSE IF t.kind = "all"
+  THEN IF ~pr.all.det \/ pr.all.demLA = INF THEN ""
+       ELSE IF t.budget THEN "laziness"
+       ELSE IF t.v # VList(pr.xs) THEN "all"
+       ELSE IF t.pulled > pr.all.demLA THEN "laziness" ELSE ""
+  ELSE ""
+
 LawVerdict(r) ==
   LET pr == Predict(r.pipe, r.srcd, r.kmax, r.horizon) IN
-  IF pr.bad \/ pr.demLA[1] = INF THEN "skip" ELSE JudgeAgainst(pr, r)
+  IF pr.bad \/ pr.demLA[1] = INF THEN "skip"
+  ELSE LET v == JudgeAgainst(pr, r) IN IF v # "" THEN v ELSE TermVerdict(pr, r.term)
 
 \* ---- stepping -------------------------------------------------------------------------------
 Row == Rows[i]
